@@ -3,6 +3,7 @@ package main
 import (
 	"fmt"
 	"math"
+	"os"
 	"runtime"
 	"strconv"
 	"strings"
@@ -183,6 +184,18 @@ func c13Life(c *mon.Ctx, r *mon.Rand) {
 	if r.Chance(1, 3) {
 		opts.HistogramBucketTagPrecision = uint(r.Range(1, 9))
 	}
+	hostTag := ""
+	if r.Chance(1, 4) {
+		opts.IncludeHost = true
+		if r.Bool() {
+			common["host"] = "configured-host"
+			hostTag = "configured-host"
+		} else {
+			hostTag, _ = os.Hostname()
+		}
+	}
+	m3ViaConfiguration = r.Chance(1, 6)
+	defer func() { m3ViaConfiguration = false }()
 	nProd := r.Range(1, 8)
 	nIdents := r.Range(1, 60)
 	if r.Chance(1, 6) {
@@ -191,8 +204,10 @@ func c13Life(c *mon.Ctx, r *mon.Rand) {
 	perProd := r.Range(1, 300)
 	idents := genM3Idents(r, nIdents)
 	desc := map[string]interface{}{"protocol": protoName(proto), "sinks": nSinks, "queue": opts.MaxQueueSize, "max_packet": opts.MaxPacketSizeBytes,
-		"common_tags": len(common), "producers": nProd, "identities": nIdents, "calls_per_producer": perProd, "bucket_tag_names": idName + "/" + bName}
+		"common_tags": len(common), "include_host": opts.IncludeHost, "via_configuration": m3ViaConfiguration, "producers": nProd, "identities": nIdents, "calls_per_producer": perProd, "bucket_tag_names": idName + "/" + bName}
 	c.LogCase(fmt.Sprint(desc))
+	stopWatch := c.Watchdog(300*time.Second, "m3-call-or-close-does-not-return", desc)
+	defer stopWatch()
 	env, err := newM3Env(nSinks, opts, nil)
 	if err != nil {
 		c.Inconclusive("NewReporter: " + err.Error())
@@ -267,6 +282,9 @@ func c13Life(c *mon.Ctx, r *mon.Rand) {
 	wantCommon := map[string]string{"service": "svc", "env": "test"}
 	for k, v := range common {
 		wantCommon[k] = v
+	}
+	if opts.IncludeHost {
+		wantCommon["host"] = hostTag
 	}
 	for si, sink := range env.Sinks {
 		msgs, problems := decodeAll(proto, sink.Datagrams())
